@@ -6,6 +6,9 @@ R2  spec->code: DescriptiveGen.tla enumerates weighted integer samples (ties, co
     weights, nil weights), evaluates every definition in exact rational arithmetic and prints
     the expected values; the Go harness calls gonum's stat package on the same data and
     compares (order statistics and counts exactly, moments within 2^-33 * scale).
+    Extreme magnitudes: DescriptiveAff.tla states the expected values on the small sample and, by the
+    affine-equivariance theorems of R1, on x' = 2^s x + 2^k c; the harness applies the exact dyadic map
+    and compares within the tolerance the specification derives (rounding-error analysis in the module).
 R3  code->spec: larger seeded samples (n up to 200) are run through gonum, the integer-valued
     results are logged and TLC recomputes them from the logged sample (DescriptiveTrace.tla).
 """
@@ -33,6 +36,13 @@ def gen(ctx, fam, alpha, off, minn, maxn, wvals, pgrid=8, shard=0, nshards=1, ta
                    name="R2 gen %s %s-%d n=%d..%d w=%s%s" % (fam, alpha, off, minn, maxn, wvals, tag),
                    subst=dict(FAMILY=fam, ALPHA=alpha, OFF=off, MINN=minn, MAXN=maxn, WVALS=wvals,
                               PGRID=pgrid, SHARD=shard, NSHARDS=nshards))
+
+
+def gen_aff(ctx, fam, alpha, off, minn, maxn, wvals, shard=0, nshards=1):
+    return ctx.gen("stat/DescriptiveAff.tla", "stat/DescriptiveAff.cfg",
+                   name="R2 gen %s %s-%d n=%d..%d w=%s transforms %d/%d" % (fam, alpha, off, minn, maxn, wvals, shard, nshards),
+                   subst=dict(FAMILY=fam, ALPHA=alpha, OFF=off, MINN=minn, MAXN=maxn, WVALS=wvals,
+                              PGRID=8, SHARD=shard, NSHARDS=nshards))
 
 
 def run(ctx):
@@ -82,6 +92,32 @@ def run(ctx):
                 ctx.replay(bins[bn], "stat", cases, name="R2 replay %s %s-%d n<=%d w=%s%s [%s]" % (
                     fam, a, o, maxn, wvals, (" shard %d" % sh if nsh > 1 else ""), bn))
 
+    # ---- R2 (extreme magnitudes): the expected values of the small sample, carried by the affine
+    # equivariance theorems to x' = 2^s x + 2^k c (s in {-20,0,20}, k in {0,30,44,52}); the harness
+    # applies the exact dyadic map to the operands.  The transforms of a sample are drawn by
+    # (hash of the sample + seed) mod nshards, so different seeds visit different pairings.
+    if have("DescriptiveAff.tla"):
+        sd = ctx.seed
+        if not thorough:
+            aplan = [("affuni", a0, o0, 1, 3, "{1,2}", 0, 1),
+                     ("affuni", a1, o1, 1, 3, "{1,3}", sd % 4, 4),
+                     ("afford", a0, o0, 1, 3, "{1,2}", 0, 1),
+                     ("affbi", a0, o0, 2, 3, "{1,2}", sd % 32, 32),
+                     ("affmat", a0, o0, 2, 3, "{1,2}", sd % 48, 48)]
+        else:
+            aplan = [("affuni", a0, o0, 1, 4, "{1,2}", 0, 1),
+                     ("affuni", a1, o1, 1, 3, "{0,1,3}", 0, 1),
+                     ("afford", a0, o0, 1, 4, "{1,2}", 0, 1),
+                     ("afford", a1, o1, 1, 3, "{0,1,3}", 0, 1),
+                     ("affbi", a0, o0, 1, 3, "{1,2}", sd % 16, 16),
+                     ("affbi", a1, o1, 2, 3, "{1,3}", sd % 32, 32),
+                     ("affmat", a0, o0, 2, 3, "{1,2}", sd % 12, 12)]
+        for fam, a, o, minn, maxn, wvals, sh, nsh in aplan:
+            cases = gen_aff(ctx, fam, a, o, minn, maxn, wvals, sh, nsh)
+            for bn, _ in builds:
+                ctx.replay(bins[bn], "stat", cases, name="R2 replay %s %s-%d n<=%d w=%s transforms %d/%d [%s]" % (
+                    fam, a, o, maxn, wvals, sh, nsh, bn))
+
     # ---- R3: larger samples run through gonum, recomputed by TLC ----------
     if have("DescriptiveTrace.tla"):
         for bn, _ in builds:
@@ -106,6 +142,10 @@ def run(ctx):
         "the harness's operand builders, its decoding of the specification's number format (math/big) and the "
         "tolerance test |got - expected| <= 2^-33 * scale are trusted",
         "moment-type results are compared within 2^-33 * (2*max|x|)^degree, order statistics, counts and modes exactly",
+        "affine families: the operands 2^s x + 2^k c are verified to be exact float64 values (math/big) and the "
+        "tolerances are the rounding-error bounds stated and derived in specs/stat/DescriptiveAff.tla (mean error "
+        "E = 16 u (|offset| + max|x|); corrected two-pass quantities 2^-40 (2 max|x| + E)^2, divided by sigma / "
+        "min(Sxx, Syy) / var(x) for StdDev / Correlation / slope; uncorrected ones first order in E, checked while E <= 1/4)",
         "where the documentation admits two readings (sample vs population skewness/kurtosis, zero-weight leading "
         "entries at p = 0, ROC threshold on a data value) every reading is accepted",
     ]
